@@ -170,7 +170,7 @@ def type_text(spec, which):
     disc = spec.get("disc") and all(v["style"] == "unit" for v in spec["variants"]) and not any(t in spec["traits"] for t in ("PartialOrd", "Ord"))
     for vi, b in enumerate(bodies):
         m = "#[default] " if spec.get("dv") == vi else ""
-        if spec.get("vattr") and vi % 2 == 1:
+        if spec.get("vattr") and vi % 2 == 1 and spec.get("dv") != vi:
             m = "#[non_exhaustive] " + m      # a foreign attribute on a variant must not change what is derived
         d = f" = {(len(bodies) - vi) * 3}" if disc else ""
         vs.append(f"{m}{vname(spec, vi)}{b}{d}")
